@@ -199,6 +199,9 @@ func ruleEndBlock(c *Ctx, r *Report, rule string) {
 		case p.Abort && hit:
 			dupErr++
 		case p.Abort:
+			// the only reason for ENDBLOCK to fail is the duplicate child key; in particular a toplevel
+			// block is always appended to the result
+			bad = fmt.Sprintf("ENDBLOCK has a failing path that is not the duplicate-child-key error (decisions %v): a block the source defines would be refused", ifs)
 		default:
 			bad = "a continuing path neither stores the block in its parent nor appends it to the result"
 		}
